@@ -19,4 +19,16 @@ func init() {
 		Shards: [2]int{16, 16}, MinEvals: [2]int{1000, 10000},
 		RequirePositive: "cmp:", RequireCount: 61,
 	})
+	reg(&propCfg{
+		ID: "C02", Level: "exploration",
+		Rule: "for each of the 61 indicators x (default + seeded random admissible configurations): EVERY input length n in [0, 2w+3] plus {3w+7, 97}, equal-length inputs; the number of values on every output is compared with max(0, n-w), w read from the live instance's IdlePeriod() (implied warm-up for the 4 types without the method). Alignment is checked reference-free by the dependence-front probe: the inputs are changed from position p on (36 probes x 3 positions per configuration and class) and the first output index that changes must be >= p-w for every probe (no look-ahead) and == p-w for at least one (not late). distinct_nontrivial counts distinct (indicator, configuration, n > w) triples.",
+		Shards: [2]int{16, 16}, MinEvals: [2]int{300, 1500},
+		RequirePositive: "cmp:", RequireCount: 61,
+	})
+	reg(&propCfg{
+		ID: "C03", Level: "exploration",
+		Rule: "every indicator (61) and strategy (registry rows at default and random configurations, And/Or/Majority/Split/MACD-RSI over real sub-strategies, Inverse/NoLoss/StopLoss over base and compound strategies, nested decorators) is run in a timer-free pure-Go child under every schedule parameterisation: input channel capacity {0,1,3,64} x pacing {eager readers, each output in turn as the one slow reader, random Gosched bursts on producers and readers, slow producers} x GOMAXPROCS {1,16} (thorough {1,2,4,16}), for input lengths {0,1,w-1,w,w+1,2w+3,97} and, for multi-input indicators, each input in turn shortened to 0, 1, n-1. Oracles: the Go runtime's 'all goroutines are asleep' report (a logical proof that the pipeline wedged, attributed to the last BEGIN record), a goroutine census fixed point after every run (leak), producers reaching close (inputs consumed), and bit-identical output sequences across all schedule parameterisations of a case. distinct_nontrivial counts cases (pipeline, configuration, length) that produced at least one value; distinct observed global receive orders are counted in distinct_sets.interleavings.",
+		Shards: [2]int{16, 16}, MinEvals: [2]int{1500, 5000},
+		RequirePositive: "cmp:", RequireCount: 61,
+	})
 }
